@@ -221,4 +221,4 @@ def check_case(case):
 
 def run(tier="quick", seed=0):
     return common.run("bounded.C12", cases(tier, seed), bound="3 candidates x <=2 ballots (ties) x all removal sets x flags; tie patterns <=4 candidates",
-                      rule=RULE, budget_s=170 if tier == "quick" else 1200)
+                      rule=RULE, budget_s=600 if tier == "quick" else 1200)
